@@ -21,6 +21,7 @@ import (
 	"path/filepath"
 	"sort"
 	"strings"
+	"syscall"
 	"testing"
 	"time"
 
@@ -484,7 +485,8 @@ func c10RunKVM(c *c10Case, withTracer bool, cands map[common.Address]bool, keys 
 	}
 	vm := NewKVM(ctx, TxContext{Origin: c.origin, GasPrice: c.gasprice}, sdb, c10ChainConfig(c.v2), cfg)
 	c10CurV2 = c.v2
-	timer := time.AfterFunc(2*time.Second, func() { res.timeout = true; vm.Cancel() })
+	// wall-clock guard only (the machine may be heavily loaded); the hang oracle itself uses CPU time
+	timer := time.AfterFunc(30*time.Second, func() { res.timeout = true; vm.Cancel() })
 	func() {
 		defer func() {
 			if r := recover(); r != nil {
@@ -678,7 +680,7 @@ func c10RunGeth(c *c10Case, cands map[common.Address]bool, keys map[common.Addre
 		BlockNumber: new(big.Int).SetUint64(c.number), Time: new(big.Int).SetUint64(c.time), Difficulty: big.NewInt(1),
 	}
 	evm := gvm.NewEVM(ctx, sdb, c10GethConfig(), gvm.Config{Debug: true, Tracer: tr})
-	timer := time.AfterFunc(4*time.Second, func() { res.timeout = true; evm.Cancel() })
+	timer := time.AfterFunc(60*time.Second, func() { res.timeout = true; evm.Cancel() })
 	func() {
 		defer func() {
 			if r := recover(); r != nil {
@@ -1661,7 +1663,7 @@ func TestVerifC10(t *testing.T) {
 	o.Rule = "per case: small pre-state (1-4 contracts + origin), one top-level Call/Create on KVM with generous gas under the pre- or post-Galaxias table; " +
 		"code = uniformly random bytes | opcode-weighted | grammar-generated (expressions, if/loops with valid jumps, nested CALL/CALLCODE/DELEGATECALL/STATICCALL, CREATE/CREATE2, logs, revert/selfdestruct) | boundary families; " +
 		"observables: error class, gas left, return data, non-empty accounts (nonce, balance, code, non-zero storage) and logs; " +
-		"oracles: no panic, < 2 s, same result with and without tracer, agreement with go-ethereum v1.9.15 core/vm (Istanbul) on class/return data/state/logs whenever no frame ran out of gas and no fork-specific opcode (GAS value, DIFFICULTY, CHAINID pre-Galaxias, precompiles' gas) was observed"
+		"oracles: no panic, < 2 s of CPU per program, same result with and without tracer, agreement with go-ethereum v1.9.15 core/vm (Istanbul) on class/return data/state/logs whenever no frame ran out of gas and no fork-specific opcode (GAS value, DIFFICULTY, CHAINID pre-Galaxias, precompiles' gas) was observed"
 	root := c10NewRand(*c10Seed)
 	opsCovered := map[byte]int{}
 	for i := 0; i < *c10N; i++ {
@@ -1682,15 +1684,15 @@ func TestVerifC10(t *testing.T) {
 			o.Count("table:v1")
 		}
 		in := c10CaseInput(i, c)
-		t0 := time.Now()
+		t0 := c10CPU()
 		res, cands, keys := c10RunKVM(c, true, nil, nil)
-		dt := time.Since(t0)
+		dt := c10CPU() - t0
 		// ---- direct oracles on the implementation
 		if res.panic != "" {
 			o.Fail(0, "kvm-panic", fmt.Sprintf("kind=%s panic=%q", c.kind, res.panic))
 		}
 		if res.timeout || dt > 2*time.Second {
-			o.Fail(0, "kvm-hang", fmt.Sprintf("kind=%s ran %v", c.kind, dt))
+			o.Fail(0, "kvm-hang", fmt.Sprintf("kind=%s used %v of CPU (limit 2s)", c.kind, dt))
 		}
 		if res.gasLeft > c.gas {
 			o.Fail(0, "kvm-gas-increase", fmt.Sprintf("gas %d -> %d", c.gas, res.gasLeft))
@@ -1771,6 +1773,15 @@ func TestVerifC10(t *testing.T) {
 	for op, n := range opsCovered {
 		o.Dist["op:"+OpCode(op).String()] = n
 	}
+}
+
+// CPU time (user+system) consumed by this process so far
+func c10CPU() time.Duration {
+	var ru syscall.Rusage
+	if err := syscall.Getrusage(syscall.RUSAGE_SELF, &ru); err != nil {
+		return 0
+	}
+	return time.Duration(ru.Utime.Nano() + ru.Stime.Nano())
 }
 
 func c10Trunc(s string) string {
